@@ -1148,6 +1148,35 @@ def c10(run):
     lint_reqs = ['lint ' + hx(src) for _, src in cases]
     l1 = common.serve([common.harness_bin(), 'serve'], lint_reqs, tag='c10l1')
     l2 = common.serve([common.harness_bin(), 'serve'], lint_reqs, tag='c10l2')
+    # large programs of MANY blocks whose lines are flagged by both lint passes at once (ties in the report): linted 8 times in
+    # one process and in 3 fresh ones -- the order of the report may not depend on scheduling either
+    bigs = []
+    for nb in (8, 31, 32, 33, 64, 200):
+        for _ in range(2):
+            nm = rng.choice(['tommy', 'my heart', 'Doctor Feelgood'])
+            blocks = []
+            for b in range(nb):
+                blocks.append(rng.choice(['say %s\n%s is 7\n' % (nm, nm), 'put 5 into %s\nsay %s\nput "s" into %s\n' % (nm, nm, nm), 'say %s\nsay %s\n' % (nm, nm),
+                                          'while %s is 1\nput 2 into %s\nput 3 into %s\n' % (nm, nm, nm)]))
+            bigs.append('\n'.join(blocks))
+    breq = ['lint ' + hx(t) for t in bigs]
+    brep = []
+    for q in breq:
+        brep += [q] * 8
+    bsame = common.serve([common.harness_bin(), 'serve'], brep, tag='c10b')
+    bprocs = [common.serve([common.harness_bin(), 'serve'], breq, tag='c10bp%d' % k) for k in range(3)]
+    bm = common.model(breq)
+    for i, t in enumerate(bigs):
+        answers = set(bsame[i * 8:(i + 1) * 8]) | {p_[i] for p_ in bprocs}
+        run.case(('biglint', t), True, keys=0, outcome='lint')
+        if len(answers) != 1:
+            run.fail({'program': t[:600] + ' ...', 'blocks': t.count('\n\n') + 1, 'distinct_reports': len(answers)},
+                     'linting the same program gave %d different reports over 11 runs' % len(answers))
+        else:
+            from .p_analysis import lint_proj
+            a = next(iter(answers))
+            if not bm[i].startswith(('fuel', 'resource')) and lint_proj(a) != lint_proj(bm[i]):
+                run.disagree({'program': t[:600] + ' ...', 'section': 'large multi-block lint'}, bm[i][:300], a[:300], True)
     for i, (prog, src) in enumerate(cases):
         answers = set(same[i * reps:(i + 1) * reps]) | {p[i] for p in procs} | ({im[i]} if im[i] is not None else set())
         nkeys = rock.dump_program(prog).count('(lsub ') if prog else 3
